@@ -58,7 +58,7 @@ def run_lex(v, exe, cfglist, seed, tag):
 def check_C01(tier, seed):
     v = Verdict("C01", tier, seed)
     exe = build_driver("asan")
-    for c in cfgs(tier, ["C01_quick.cfg", "C01_nocase_titles.cfg", "C01_lists.cfg", "C01_drop.cfg", "C01_simple.cfg"], ["C01_len7.cfg", "C01_two_parses.cfg"]):
+    for c in cfgs(tier, ["C01_quick.cfg", "C01_nocase_titles.cfg", "C01_lists.cfg", "C01_drop.cfg", "C01_simple.cfg", "C01_kvnest.cfg"], ["C01_len7.cfg", "C01_two_parses.cfg"]):
         res = tlc_parse(v, c, INV_PARSE)
         # canonical and seeded varied rendering through cfg_parse_buf; the same bytes through cfg_parse_fp
         # (a stream) and cfg_parse (a file) must give the same result
